@@ -19,6 +19,6 @@ for g in guards/*$1*.diff; do
     code=$?
     printf "%s\t%s\t%s\t%s\n" "$name" "$P" "$code" "$(grep -m1 '^violation\|HARNESS\|BUILD' /tmp/try/guard_$name.$P.log | cut -c1-200)" >> $OUT.tmp
   done
-  git -C /repo worktree remove --force $WT; rm -rf $VERIF_OUT; rm -f /verif/.bin/simcheck.[0-9]*
+  git -C /repo worktree remove --force $WT; rm -rf $VERIF_OUT; rm -f /verif/.bin/simcheck.$(printf '%s' "$WT" | cksum | cut -d' ' -f1)*
 done
 mv $OUT.tmp $OUT; awk -F'\t' '$3!=0' $OUT; echo "guards: $(awk -F'\t' '$3==0' $OUT | wc -l) check runs at exit 0, $(awk -F'\t' '$3!=0' $OUT | wc -l) not"
